@@ -289,6 +289,24 @@ def run_case(case):
       bad("gradient", "d q/dx at x=%r is %r, surrogate derivative %r" % (
           float(x.reshape(-1)[i]), float(g1.reshape(-1)[i]), float(np.asarray(g).reshape(-1)[i])), tag,
           x=float(x.reshape(-1)[i]), got=float(g1.reshape(-1)[i]), want=float(np.asarray(g).reshape(-1)[i]))
+    # points at a kink of the surrogate were left out of `keep` because two derivative values are defensible there
+    # (the one of either adjacent region); any OTHER value is still a violation
+    kink = ~keep
+    if kink.any():
+      gf = np.asarray(np.broadcast_to(g, x.shape), dtype=np.float64).reshape(-1)
+      g1f = g1.astype(np.float64).reshape(-1)
+      # any value between the smallest and the largest region derivative is a sub-gradient at a kink
+      lo_h, hi_h = min(gf.min(), 0.0), max(gf.max(), 0.0)
+      if tag in ("auto", "auto_po2") and name == "quantized_linear":
+        lo_h, hi_h = 0.0, 1.0     # per-element scales put every element on its own clip edge: regions {1, 1-f}
+      okk = (g1f >= lo_h - 1e-6 - tol) & (g1f <= hi_h + 1e-6 + tol)
+      badk = kink.reshape(-1) & ~okk
+      evals += int(kink.sum())
+      if badk.any():
+        i = int(np.flatnonzero(badk)[0])
+        bad("gradient-at-kink", "d q/dx at x=%r is %r, which lies outside the range [%r, %r] of the surrogate's derivatives" % (
+            float(x.reshape(-1)[i]), float(g1f[i]), lo_h, hi_h), tag,
+            x=float(x.reshape(-1)[i]), got=float(g1f[i]))
     d2 = np.abs(g2.astype(np.float64) - g * w)
     wrong2 = keep & (d2 > lim * w + 1e-7)
     if wrong2.any() and not wrong.any():
